@@ -83,7 +83,8 @@ func c07Inject(prefix []int, op string, n int, phase string) *vrt.Exec {
 	})
 }
 
-// c07LockHeld: the closed / released check of tableGameOpen must be made under the engine lock. An add-on is
+// c07LockHeld: the closed / released check of tableGameOpen must be made under the engine lock. A top-up
+// (PlayerReserve of a seated player) is
 // parked inside its own notification callback (which the engine invokes while holding te.lock); with the
 // lock held the gate's timeout fires (tableGameOpen becomes runnable) and CloseTable / ReleaseTable is
 // called and returns; only then is the add-on let go. The opening needs the lock from its check to the swap,
@@ -127,10 +128,10 @@ func c07LockHeld(prefix []int, op string) *vrt.Exec {
 				park.Unlock()
 			}
 		}
-		holder := env.Go("holder:addon", false, func() { td.addon("a", 3) })
+		holder := env.Go("holder:top-up", false, func() { td.reserve("a", -1, 3) })
 		env.Settle()
 		if !parked {
-			return "", "harness-base", "the add-on did not reach its notification"
+			return "", "harness-base", "the top-up did not reach its notification"
 		}
 		closed := false
 		env.WindowBegin()
@@ -156,9 +157,9 @@ func c07LockHeld(prefix []int, op string) *vrt.Exec {
 			env.AdvanceTimer()
 			env.Settle()
 		}
-		out := fmt.Sprintf("%s returned while an add-on held the engine lock; afterwards game count %d, status %s", op, td.table().State.GameCount, td.status())
+		out := fmt.Sprintf("%s returned while a top-up held the engine lock; afterwards game count %d, status %s", op, td.table().State.GameCount, td.status())
 		if td.table().State.GameCount >= 2 {
-			return out, "opened-after-stop@" + op + "/open-trigger-waiting-for-the-engine-lock", fmt.Sprintf("between hands (standby, hand 2 set up) an add-on held the engine lock inside its notification callback; the open-game timeout fired and %s returned while the lock was still held; when the add-on finished, hand 2 opened all the same (game count %d, status %s)", op, td.table().State.GameCount, td.status())
+			return out, "opened-after-stop@" + op + "/open-trigger-waiting-for-the-engine-lock", fmt.Sprintf("between hands (standby, hand 2 set up) a top-up (PlayerReserve) held the engine lock inside its notification callback; the open-game timeout fired and %s returned while the lock was still held; when the add-on finished, hand 2 opened all the same (game count %d, status %s)", op, td.table().State.GameCount, td.status())
 		}
 		return out, "", ""
 	})
